@@ -2,6 +2,8 @@ package wm
 
 import (
 	"fmt"
+	"go/token"
+	"go/types"
 	"strings"
 
 	"golang.org/x/tools/go/ssa"
@@ -266,63 +268,85 @@ func c02Dispatch(c *Check, P string, r *RouterRoles) {
 			msgArg = g.Call.Args[i]
 		}
 	}
-	var recvs []ssa.Instruction
+	// a receive site: `v, ok := <-ch` / `range ch` (UnOp with comma-ok) or a receive case of a select
+	type recvSite struct {
+		ins ssa.Instruction
+		ok  func(ssa.Value) bool // is v the `ok` result of this receive
+	}
+	var recvs []recvSite
 	ok := msgArg != nil && AllOrigins(msgArg, func(v ssa.Value) bool {
-		e, ok := v.(*ssa.Extract)
-		if !ok || e.Index != 0 {
+		e, isE := v.(*ssa.Extract)
+		if !isE {
 			return false
 		}
-		u, ok := e.Tuple.(*ssa.UnOp)
-		if ok && u.Op.String() == "<-" && u.X.Type().Underlying().String() == tMsgChanRecv {
-			recvs = append(recvs, u)
-			return true
+		switch t := e.Tuple.(type) {
+		case *ssa.UnOp:
+			if e.Index == 0 && t.Op.String() == "<-" && t.X.Type().Underlying().String() == tMsgChanRecv {
+				recvs = append(recvs, recvSite{t, func(x ssa.Value) bool {
+					e2, ok := x.(*ssa.Extract)
+					return ok && e2.Tuple == ssa.Value(t) && e2.Index == 1
+				}})
+				return true
+			}
+		case *ssa.Select:
+			k := 0
+			for _, st := range t.States {
+				if st.Dir != types.RecvOnly {
+					continue
+				}
+				if e.Index == 2+k && st.Chan.Type().Underlying().String() == tMsgChanRecv {
+					recvs = append(recvs, recvSite{t, func(x ssa.Value) bool {
+						e2, ok := x.(*ssa.Extract)
+						return ok && e2.Tuple == ssa.Value(t) && e2.Index == 1
+					}})
+					return true
+				}
+				k++
+			}
 		}
 		return false
 	})
 	c.Report(ok, P+".O7", "DISPATCH-ARG", L, g.Pos(), "go dispatch", "the dispatched message is the value received from the handler's message channel")
-	if ok {
-		for _, rcv := range recvs {
-			// from the receive, the next receive (or loop exit with ok) is reached only through the go statement, and the go statement is executed once per receive
-			okOnce := !ReachWithout(g, g, rcv)
-			c.Report(okOnce, P+".O7", "DISPATCH-ONCE", L, g.Pos(), "go dispatch", "between two receives the dispatch is started at most once (no duplicate handling)")
-			// every path from the `ok` edge of the receive to the next receive passes the go
-			var okEdges []Edge
-			for _, t := range Tests(L) {
-				if e, isE := t.X.(*ssa.Extract); isE && e.Tuple == rcv.(ssa.Value) && e.Index == 1 {
-					okEdges = append(okEdges, t.True)
-				}
+	if !ok {
+		return
+	}
+	for _, rs := range recvs {
+		rcv := rs.ins
+		// from the receive, the next receive (or loop exit with ok) is reached only through the go statement, and the go statement is executed once per receive
+		okOnce := !ReachWithout(g, g, rcv)
+		c.Report(okOnce, P+".O7", "DISPATCH-ONCE", L, g.Pos(), "go dispatch", "between two receives the dispatch is started at most once (no duplicate handling)")
+		// every path from the `ok` edge of the receive to the next receive passes the go
+		var okEdges, closedEdges []Edge
+		for _, t := range Tests(L) {
+			if t.Op == token.ILLEGAL && rs.ok(t.X) {
+				okEdges = append(okEdges, t.True)
+				closedEdges = append(closedEdges, t.False)
 			}
-			if len(okEdges) == 0 {
-				c.Undecided(P+".O7", "DISPATCH-ALL", L, rcv.Pos(), "receive", "cannot find the `ok` test of the receive")
-				continue
+		}
+		if len(okEdges) == 0 {
+			c.Undecided(P+".O7", "DISPATCH-ALL", L, rcv.Pos(), "receive", "cannot find the `ok` test of the receive")
+			continue
+		}
+		all := true
+		for _, e := range okEdges {
+			if ReachEdge(e, NewCut().AddInstrs(g))[rcv] {
+				all = false
 			}
-			all := true
-			for _, e := range okEdges {
-				if ReachEdge(e, NewCut().AddInstrs(g))[rcv] {
+			for _, ret := range Returns(L) {
+				if ReachEdge(e, NewCut().AddInstrs(g, rcv))[ret] {
 					all = false
 				}
-				for _, ret := range Returns(L) {
-					if ReachEdge(e, NewCut().AddInstrs(g, rcv))[ret] {
-						all = false
-					}
-				}
 			}
-			c.Report(all, P+".O7", "DISPATCH-ALL", L, g.Pos(), "go dispatch", "every received message is dispatched before the next receive or the loop's exit (none is dropped)")
-			// the loop is left only when the channel was closed
-			var closedEdges []Edge
-			for _, t := range Tests(L) {
-				if e, isE := t.X.(*ssa.Extract); isE && e.Tuple == rcv.(ssa.Value) && e.Index == 1 {
-					closedEdges = append(closedEdges, t.False)
-				}
-			}
-			okEnd := len(closedEdges) > 0
-			for _, ret := range Returns(L) {
-				if !GuardedBy(L, ret, closedEdges) {
-					okEnd = false
-				}
-			}
-			c.Report(okEnd, P+".O7", "LOOP-ENDS-ONLY-ON-CHANNEL-CLOSE", L, rcv.Pos(), "message loop", "the run loop (and with it the handler's accounting in Close) ends only when the subscriber closed the message channel — not on context cancellation, which would let Close return while the subscriber is still closing or delivering")
 		}
+		c.Report(all, P+".O7", "DISPATCH-ALL", L, g.Pos(), "go dispatch", "every received message is dispatched before the next receive or the loop's exit (none is dropped)")
+		// the loop is left only when the channel was closed
+		okEnd := len(closedEdges) > 0
+		for _, ret := range Returns(L) {
+			if !GuardedBy(L, ret, closedEdges) {
+				okEnd = false
+			}
+		}
+		c.Report(okEnd, P+".O7", "LOOP-ENDS-ONLY-ON-CHANNEL-CLOSE", L, rcv.Pos(), "message loop", "the run loop (and with it the handler's accounting in Close) ends only when the subscriber closed the message channel — not on context cancellation, which would let Close return while the subscriber is still closing or delivering")
 	}
 }
 
